@@ -260,6 +260,13 @@ def run_task(task):
 
 
 def digest_slice(seed):
+    try:
+        return _digest_slice(seed)
+    except corrupt.BaseNotWritable:
+        return "base-object-not-writable"
+
+
+def _digest_slice(seed):
     from ..engine import new_partial
     part = new_partial()
     for i in range(3):
